@@ -55,6 +55,16 @@ def switch(target_handle: Handle[World], clear_current=False, clear_next=False,
     if from_world is None:
         from_world = desper.default_loop.current_world
 
+    # A handle cleared by the loop is loaded again: clear it beforehand, so
+    # that events reach the world instance that will actually be executed
+    same_handle = (from_world is not None and target_handle.cached
+                   and target_handle() is from_world)
+    if clear_next or (clear_current and same_handle):
+        target_handle.clear()
+        clear_next = False
+        if same_handle:
+            clear_current = False
+
     to_world = target_handle()
 
     if from_world is not None:
